@@ -47,6 +47,7 @@ type HarnessSpec struct {
 	VirtualTime bool     `json:"virtual_time"`
 	NoMerge     bool     `json:"no_merge"`
 	LazySlices  bool     `json:"lazy_slices"`
+	Z3TimeoutMs int      `json:"z3_timeout_ms"`
 	Quick       TierSpec `json:"quick"`
 	Thorough    TierSpec `json:"thorough"`
 	Bounds      string   `json:"bounds"`
@@ -256,7 +257,7 @@ func cmdRun(args []string) int {
 		}
 		cfg := symgo.Config{Workers: 16, Params: r.tier.Params, Unwind: r.tier.Unwind, MaxPaths: r.tier.MaxPaths,
 			MaxSteps: r.tier.MaxSteps, KnownIDs: knownIDs, Goroutines: r.spec.Goroutines, VirtualTime: r.spec.VirtualTime,
-			NoMerge: r.spec.NoMerge, LazySlices: r.spec.LazySlices, Seed: seed()}
+			NoMerge: r.spec.NoMerge, LazySlices: r.spec.LazySlices, QueryTimeoutMs: r.spec.Z3TimeoutMs, Seed: seed()}
 		if r.tier.DeadlineS > 0 {
 			cfg.Deadline = time.Now().Add(time.Duration(r.tier.DeadlineS) * time.Second)
 		}
@@ -609,6 +610,8 @@ func cmdHarness(args []string) int {
 			cfg.Goroutines = true
 		case a == "--vtime":
 			cfg.VirtualTime = true
+		case strings.HasPrefix(a, "--z3ms="):
+			cfg.QueryTimeoutMs, _ = strconv.Atoi(a[7:])
 		case a == "--lazy":
 			cfg.LazySlices = true
 		case a == "--nomerge":
